@@ -228,6 +228,9 @@ func (e *Engine) arrayOp(n *Node, op *Op) error {
 			}
 			n.Elems = append(n.Elems, m)
 			e.adopt(n, m)
+			if err := e.bulkTick(i, op.N); err != nil {
+				return err
+			}
 		}
 		e.rec("appN %d ok", op.N)
 		return nil
@@ -380,6 +383,9 @@ func (e *Engine) arrayOp(n *Node, op *Op) error {
 			prev := n.Elems[idx]
 			n.Elems[idx] = m
 			if err := e.handBack(old, prev, false, fmt.Sprintf("Set(%d) previous element", idx)); err != nil {
+				return err
+			}
+			if err := e.bulkTick(i, op.N); err != nil {
 				return err
 			}
 		}
@@ -648,6 +654,9 @@ func (e *Engine) mapOp(n *Node, op *Op) error {
 			if err := e.mapSet(n, km, vd, false); err != nil {
 				return err
 			}
+			if err := e.bulkTick(i, op.N); err != nil {
+				return err
+			}
 		}
 		return nil
 
@@ -811,6 +820,9 @@ func (e *Engine) mapOp(n *Node, op *Op) error {
 				vd = &VD{K: "u", N: vd.N}
 			}
 			if err := e.mapSet(n, n.Ents[ck].K, vd, false); err != nil {
+				return err
+			}
+			if err := e.bulkTick(i, op.N); err != nil {
 				return err
 			}
 		}
@@ -1381,6 +1393,9 @@ func (e *Engine) bulkTick(i, total int) error {
 		return nil
 	}
 	every := 1 + total*e.modelSize()/60_000
+	if m := (total + 47) / 48; every < m {
+		every = m // at most 48 whole-state checks per bulk operation
+	}
 	if (i+1)%every != 0 {
 		return nil
 	}
